@@ -312,7 +312,7 @@ func runGoTest(dir string, in, out string, race bool) (string, error) {
 	if err != nil {
 		return "", err
 	}
-	env := []string{"VERIF_REPLAY_IN=" + in, "VERIF_REPLAY_OUT=" + out}
+	env := []string{"VERIF_REPLAY_IN=" + in, "VERIF_REPLAY_OUT=" + out, fmt.Sprintf("VERIF_REPLAY_SKIP=%d", replaySkip)}
 	args := []string{"test", "-vet=off", "-count=1", "-run", "^TestVerifReplay$", "-overlay", ov, "-timeout", "30m"}
 	if race {
 		env = append(env, "VERIF_RACE=1", "CGO_ENABLED=1")
@@ -336,23 +336,76 @@ func runBatch(dir, tag string, cases []replayCase, race bool) ([]replayResult, e
 	if err := os.WriteFile(in, b, 0o644); err != nil {
 		return nil, err
 	}
-	outp, err := runGoTest(dir, in, out, race)
-	if race {
-		lastRaceOutput = outp
-	}
-	ob, rerr := os.ReadFile(out)
-	if rerr != nil {
-		return nil, fmt.Errorf("native replay run failed: %v\n%s", err, outp)
-	}
-	if err != nil && !race {
-		return nil, fmt.Errorf("native replay run failed: %v\n%s", err, outp)
+	total := 0
+	type pos struct{ c, w int }
+	var flat []pos
+	for ci, c := range cases {
+		for wi := range c.Witnesses {
+			flat = append(flat, pos{ci, wi})
+		}
+		total += len(c.Witnesses)
 	}
 	var rs []replayResult
-	if err := json.Unmarshal(ob, &rs); err != nil {
-		return nil, err
+	// the test process writes one result line per witness as it goes; a
+	// witness that kills the process (a Go "fatal error", e.g. unlocking an
+	// unlocked mutex, cannot be recovered) is recorded as outcome "fatal" and
+	// the run resumes behind it
+	for crashes := 0; ; crashes++ {
+		os.Remove(out)
+		replaySkip = len(rs)
+		outp, err := runGoTest(dir, in, out, race)
+		if race {
+			lastRaceOutput += outp
+		}
+		ob, rerr := os.ReadFile(out)
+		if rerr != nil && len(rs) == 0 && err != nil {
+			return nil, fmt.Errorf("native replay run failed: %v\n%s", err, outp)
+		}
+		n := 0
+		for _, line := range strings.Split(string(ob), "\n") {
+			if strings.TrimSpace(line) == "" {
+				continue
+			}
+			var r replayResult
+			if jerr := json.Unmarshal([]byte(line), &r); jerr != nil {
+				break // a torn last line
+			}
+			rs = append(rs, r)
+			n++
+		}
+		if len(rs) >= total {
+			return rs, nil
+		}
+		if err == nil {
+			return nil, fmt.Errorf("native replay run ended early without an error (%d of %d witnesses)\n%s", len(rs), total, outp)
+		}
+		if race && !strings.Contains(outp, "fatal error:") {
+			// the race detector makes the run fail by design; an incomplete
+			// result list without a fatal error is a broken run
+			return nil, fmt.Errorf("native replay run failed: %v\n%s", err, outp)
+		}
+		if !strings.Contains(outp, "fatal error:") && !strings.Contains(outp, "panic:") {
+			return nil, fmt.Errorf("native replay run failed: %v\n%s", err, outp)
+		}
+		if crashes > 40 {
+			return nil, fmt.Errorf("native replay: more than 40 witnesses kill the test process\n%s", outp)
+		}
+		p := flat[len(rs)]
+		detail := "the test process died"
+		for _, l := range strings.Split(outp, "\n") {
+			if strings.HasPrefix(l, "fatal error:") || strings.HasPrefix(l, "panic:") {
+				detail = l
+				break
+			}
+		}
+		rs = append(rs, replayResult{Case: p.c, Witness: p.w, Outcome: "fatal", Detail: detail})
+		if len(rs) >= total {
+			return rs, nil
+		}
 	}
-	return rs, nil
 }
+
+var replaySkip int
 
 func nativeReplay(results []*symx.CaseResult) (*replayReport, error) {
 	start := time.Now()
@@ -466,10 +519,12 @@ func nativeReplay(results []*symx.CaseResult) (*replayReport, error) {
 			ok := r.Outcome == w.Outcome || (strings.HasSuffix(rf.viol.ID, ":deadlock") && r.Outcome == "timeout")
 			if ok {
 				rep.confirmed = append(rep.confirmed, confirmedViolation{Spec: spec, V: rf.viol, Native: r.Outcome, Detail: r.Detail})
-			} else if r.Outcome == "panic" || strings.HasPrefix(r.Outcome, "assert:") {
+			} else if r.Outcome == "panic" || r.Outcome == "fatal" || strings.HasPrefix(r.Outcome, "assert:") {
 				// natively reproduced, but as a different failure: report what the real code does
 				v := *rf.viol
-				if r.Outcome == "panic" {
+				if r.Outcome == "fatal" {
+					v.Kind, v.ID, v.Msg = "panic", "fatal:native:"+firstLine(r.Detail), "the Go runtime killed the process: "+r.Detail
+				} else if r.Outcome == "panic" {
 					v.Kind, v.ID, v.Msg = "panic", "panic:native:"+firstLine(r.Detail), "native panic: "+r.Detail
 				} else {
 					v.Kind, v.ID = "assert", strings.TrimPrefix(r.Outcome, "assert:")
